@@ -211,6 +211,12 @@ def imported(ctx, rule_fn, *args):
     one's: it is recorded as a note here."""
     try:
         rule_fn(ctx, *args)
+        # the vacuity guard of an imported rule is the sibling's business (its instance count depends on the
+        # scope the importer asked for)
+        if getattr(ctx, "_own_rules", None) is not None:
+            for r in list(ctx.rule_min):
+                if r not in ctx._own_rules:
+                    ctx.rule_min[r] = min(ctx.rule_min[r], 1)
     except AnalysisError as e:
         ctx.note("imported premise %s.%s not analysable on this tree: %s" % (rule_fn.__module__.split(".")[-1], rule_fn.__name__, str(e)[:200]))
         # the vacuity guard of an imported rule is the sibling's business
